@@ -171,6 +171,62 @@ def c20_runs(tier):
     return r
 
 
+RACE_WHITELIST = ['inited', 'epoll_support', 'epoll_pwait2_support', 'eventfd_in_use', 'eventfd_in_use.46',
+                  'pipe2_support', 'splice_available', 'iv_event_use_event_raw', 'method', 'clock_source',
+                  'iv_state_key_allocated']
+
+
+def mt_run(name, harness, covers=(), preempt=2, **params):
+    params = dict(params)
+    params['preempt'] = preempt
+    return {'name': name, 'sources': [harness] + ENVSRC, 'params': params, 'covers': list(covers),
+            'opts': {'max_preempt': preempt, 'race_whitelist': RACE_WHITELIST},
+            'bounds': 'preemption bound %d; ' % preempt + ' '.join('%s=%s' % kv for kv in sorted(params.items()))}
+
+
+def c08_runs(tier, hb=0):
+    q = tier == 'quick'
+    cv = ['event.handler-ran', 'event.quiescent', 'event.cross-thread-post-delivered']
+    r = []
+    for m, nm in ((1, 'epoll-kick'), (3, 'rawevent-poll'), (0, 'epoll-timerfd-kick')):
+        r.append(mt_run('posters.' + nm, 'harness/event.c', cv, preempt=3 if q else 4, E=2, P=2, Q=1 if q else 2,
+                        method=m, hb=hb))
+    r.append(mt_run('three-posters', 'harness/event.c', cv, preempt=2 if q else 3, E=2, P=3, Q=1, method=1, hb=hb))
+    r.append(mt_run('owner-activity.epoll', 'harness/event.c',
+                    cv + ['event.owner-posts-from-handler', 'event.owner-registers-extra',
+                          'event.owner-unregisters-extra'],
+                    preempt=3, E=2, P=1, Q=2, method=1, owner=1, ops=2 if q else 3, hb=hb))
+    r.append(mt_run('owner-activity.raw', 'harness/event.c', cv + ['event.owner-posts-from-handler'],
+                    preempt=3, E=2, P=1, Q=2, method=2, owner=1, ops=2, selfpost=1, hb=hb))
+    r.append(mt_run('pipe-transport', 'harness/event.c', cv, preempt=3, E=2, P=2, Q=1, method=3, noeventfd=1, hb=hb))
+    return r
+
+
+def c09_runs(tier, hb=0):
+    q = tier == 'quick'
+    cv = ['raw.handler-ran', 'raw.quiescent', 'raw.posts-coalesced']
+    r = []
+    for cfg, nm in ((0, 'eventfd2'), (1, 'old-eventfd'), (2, 'pipe')):
+        r.append(mt_run('threads.' + nm, 'harness/eventraw.c',
+                        cv + ['raw.post-while-handler-runs'] + (['env.pipe-full', 'raw.pipe-fallback'] if cfg == 2 else []),
+                        preempt=3, R=1, T=2, N=3 if q else 5, cfg=cfg, hposts=1, pipecap=2 if q else 3, hb=hb))
+        r.append(mt_run('signal.' + nm, 'harness/eventraw.c',
+                        ['raw.handler-ran', 'raw.quiescent', 'raw.posted-from-signal-handler',
+                         'env.signal-delivered-at-syscall-boundary'],
+                        preempt=3, R=1, T=1, N=1, S=2, cfg=cfg, ownerpost=1, hb=hb))
+    r.append(mt_run('two-events.poll', 'harness/eventraw.c', cv, preempt=3, R=2, T=2, N=2, cfg=0, method=3, hb=hb))
+    return r
+
+
+def c14_runs(tier):
+    r = []
+    for x in c08_runs(tier, hb=1) + c09_runs(tier, hb=1):
+        x = dict(x)
+        x['name'] = 'race.' + x['name']
+        r.append(x)
+    return r
+
+
 LOOP_OUTSIDE = ('more descriptors/timers/tasks, more operations per callback and more loop iterations than stated; '
                 'the real kernel (the model is the trusted base); kqueue/dev-poll/port back ends (not built on Linux)')
 
@@ -255,6 +311,38 @@ CHECKS = {
             'outside': 'several reads per run; the real inotify queue (records are produced by the harness)',
             'assumptions': ENV_ASSUMPTIONS + ['a watch dropped by the library (IN_IGNORED / IN_ONESHOT) is not '
                                               'unregistered again by the application']},
+    'C08': {'runs': c08_runs,
+            'explanation': 'C08: owner loop + poster threads over the real iv_event.c/iv_fd_epoll.c/iv_event_raw_posix.c '
+                           'on the epoll (one-shot kick) and raw-event transports; every interleaving at the model\'s '
+                           'scheduling points (lock acquisition, every modelled system call, thread start/exit) within '
+                           'the preemption bound is explored by forking; the schedule dimension is enumeration, not '
+                           'solver search. Oracles: handler in owner thread, runs <= posts, and at quiescence every '
+                           'post is followed by a handler run that began after the post began.',
+            'bounds': {'quick': '2 events, 2-3 posters x 1 post (preemption bound 3, 2 for three posters), owner '
+                                'activity from handlers (2 operations)', 'thorough': '2 posts per poster, bound 4'},
+            'outside': 'more threads/posts/preemptions; weak memory; instruction-level preemption between '
+                       'scheduling points (justified by the absence of races, which C14 checks on the same runs)',
+            'assumptions': ENV_ASSUMPTIONS},
+    'C09': {'runs': c09_runs,
+            'explanation': 'C09: raw events posted from the owner, poster threads, a signal handler (delivered at '
+                           'forked system-call boundaries) and a "forked child" (modelled as a thread restricted to '
+                           'iv_event_raw_post); bursts against pipe capacity 2-3; eventfd2, old eventfd and pipe '
+                           'fallback; the write model asserts O_NONBLOCK whenever a post would block.',
+            'bounds': {'quick': '1-2 raw events, 2 posters x 3 posts (> pipe capacity 2), 2 signal deliveries, '
+                                'preemption bound 3', 'thorough': '5 posts per poster against capacity 3'},
+            'outside': 'signal delivery between two instructions that are not system-call boundaries (the post is a '
+                       'single write; nothing else is shared); a real forked child',
+            'assumptions': ENV_ASSUMPTIONS},
+    'C14': {'runs': c14_runs,
+            'explanation': 'C14: happens-before (vector clock) race monitor over every load/store that library code '
+                           'performs on globals and heap during the multi-threaded scenario programs of C08/C09 '
+                           '(C12/C13 scenarios are added when built); sync edges: mutex/spin unlock->lock, '
+                           'thread create/join, write->read on pipes/eventfds, epoll_ctl->epoll_wait. The verdict on '
+                           'a path is independent of the timing actually observed.',
+            'bounds': {'quick': 'the quick scenario programs of C08 and C09', 'thorough': 'their thorough versions'},
+            'outside': 'stack objects shared between threads; weak memory; one-way feature flags are whitelisted: '
+                       + ', '.join(RACE_WHITELIST),
+            'assumptions': ENV_ASSUMPTIONS},
     'C16': {
         'runs': avl_runs,
         'explanation': 'C16: pre-state = any balanced shape (enumerated by forking) with solver-unknown strictly '
